@@ -8,6 +8,8 @@ CFGS = {
               ("c04-b", dict(FlushSteps="TRUE", CrashAt=FL, MaxStmts=3, MaxRows=2, MaxFlush=1, MaxCrash=2, Tables='{"t1"}', Vals="{1}", Ops='{"create", "insert", "delete"}'), 15000),
               # two tables, changes interleaved over their pages, flushes of existing pages torn anywhere, statements continue afterwards
               ("c04-d", dict(FlushSteps="TRUE", CrashAt=FL, NoCrashIn='{"create"}', MaxStmts=5, MaxRows=1, MaxFlush=1, MaxCrash=1, Vals="{1}", Ops='{"create", "insert", "update"}'), 15000),
+              # leaves that do not split on every insert (capacity 4): a flush of existing pages of a multi-level tree
+              ("c04-f", dict(LeafCap=4, FlushSteps="TRUE", CrashAt=FL, NoCrashIn='{"create"}', MaxStmts=4, MaxRows=2, MaxFlush=2, MaxCrash=1, Tables='{"t1"}', Vals="{1}", Ops='{"create", "insert", "update"}'), 15000),
               # a torn flush of existing pages, recovery, more statements, a clean restart
               ("c04-e", dict(FlushSteps="TRUE", CrashAt='{"flush", "idle"}', NoCrashIn='{"create"}', MaxStmts=5, MaxRows=1, MaxFlush=2, MaxCrash=2, Tables='{"t1"}', Vals="{1}", Ops='{"create", "insert", "update"}'), 15000)],
     "thorough": [("c04-a", dict(FlushSteps="TRUE", CrashAt=FL, MaxStmts=4, MaxRows=3, MaxFlush=1, MaxCrash=1, Tables='{"t1"}'), 80000),
